@@ -1328,7 +1328,7 @@ def decompile_script(script: bytes, indent: int = 0) -> list[str]:
                 add_line(f'{op_name} x{digest.hex()}')
             case _:
                 if op_name[:3] == 'NOP':
-                    val = tape.read(1)[0]
+                    val = bytes_to_int(tape.read(1))
                     add_line(f'{op_name} d{val}')
                 else:
                     lines = additional_opcodes[op_name][1](op_name, tape)
